@@ -333,6 +333,26 @@ fn check_transparency_fam(fam: &str, word: &[u8], alpha: &[X], max_nulls: usize,
             // order statistics
             let e64: Vec<f64> = enc_vec(&ext);
             let eop: Vec<Option<f64>> = enc_vec(&ext);
+            // ranks (absolute and percentile, both directions): a valid element keeps the rank it has in the
+            // null-free base, an inserted null is ranked null
+            for pct in [false, true] {
+                for rev in [false, true] {
+                    let op = MapOp::VRank(pct, rev);
+                    let base_r = run_map_any::<Vec<f64>, f64>(&op, &base64).map(strip);
+                    for (ename, got) in [("f64", run_map_any::<Vec<f64>, f64>(&op, &e64).map(strip)), ("Option<f64>", run_map_any::<Vec<Option<f64>>, Option<f64>>(&op, &eop).map(strip))] {
+                        let (Some(Outcome::Ok(b)), Some(got)) = (&base_r, got) else { continue };
+                        ctx.evals += 1;
+                        let mut want: Vec<Cell> = vec![];
+                        let mut it = b.iter();
+                        for v in &ext {
+                            want.push(if v.is_some() { it.next().cloned().unwrap_or(Cell::Null) } else { Cell::Null });
+                        }
+                        if !matches!(&got, Outcome::Ok(g) if cells_eq(g, &want, exact_eq)) {
+                            viol(ctx, format!("transparency:{}", op.name()), None, ext.len() * 100, json!({"family": fam, "word": word, "base": json_word(&base), "with_nulls": json_word(&ext), "elem": ename}), show_cells(&want), show_outcome(&got));
+                        }
+                    }
+                }
+            }
             for q in [0.0, 0.1, 0.25, 1.0 / 3.0, 0.5, 0.75, 1.0] {
                 for m in QMETHODS {
                     let a = run_quantile::<Vec<f64>, f64>(&base64, q, m);
@@ -502,7 +522,7 @@ fn main() {
     total.sample(json!({"relation": "encoding", "entry": "ts_vstd", "series_f64": "[NaN, 1.0, 3.0]", "series_option": "[None, Some(1.0), Some(3.0)]", "outputs_equal_after_decoding": true}));
     total.sample(json!({"relation": "transparency", "op": "vskew(0)", "base": [-2, 0, 3], "with_nulls": [null, -2, 0, null, 3], "equal": true}));
     let meta = Meta {
-        rule: "(a) encoding relation: every word over the value alphabet; every null-aware rolling entry point (reduced (w, mp) band), mapping operation and aggregation is run on Vec<f64> (NaN) and Vec<Option<f64>> (None) with outputs f64 / Option<f64> / f32 / Option<i32>; outputs must be identical after decoding (None ~ NaN); the same on long structured series (24..70 elements) with null blocks and periodic null patterns. (b) null transparency: every null-free base word and every placement of 1..k nulls into its gaps (all multisets of gaps): count_valid, sums, moments, extrema, first / last, quantiles (grid x 4 methods), median, percentile-of-score are unchanged and count_none grows by k; two-series: extra positions with a null in the first, second or both series leave vcov / vcorr_pearson unchanged. Exact comparison. Non-trivial (a) = words containing a null; (b) = every base word. Also (DESIGN 5.4, 5.15, 5.16): both relations with the float nulls written as the run-time NaN (sign bit), a payload NaN and both mixed (encodings-nan-kinds, transparency-nan-kinds); null transparency of the position-independent rolling statistics (rolling-transparency: output i == statistic of window i with its nulls deleted).".into(),
+        rule: "(a) encoding relation: every word over the value alphabet; every null-aware rolling entry point (reduced (w, mp) band), mapping operation and aggregation is run on Vec<f64> (NaN) and Vec<Option<f64>> (None) with outputs f64 / Option<f64> / f32 / Option<i32>; outputs must be identical after decoding (None ~ NaN); the same on long structured series (24..70 elements) with null blocks and periodic null patterns. (b) null transparency: every null-free base word and every placement of 1..k nulls into its gaps (all multisets of gaps): count_valid, sums, moments, extrema, first / last, quantiles (grid x 4 methods), median, percentile-of-score are unchanged and count_none grows by k; two-series: extra positions with a null in the first, second or both series leave vcov / vcorr_pearson unchanged. Exact comparison. Non-trivial (a) = words containing a null; (b) = every base word. Also (DESIGN 5.4, 5.15, 5.16): both relations with the float nulls written as the run-time NaN (sign bit), a payload NaN and both mixed (encodings-nan-kinds, transparency-nan-kinds); null transparency of the position-independent rolling statistics (rolling-transparency: output i == statistic of window i with its nulls deleted). Round 8 (DESIGN 5.17): transparency of vrank (absolute / percentile, both directions): a valid element keeps the rank it has in the null-free base.".into(),
         bounds: json!({"encodings": {"alphabet": json_word(&enc.alpha), "L": enc.max_len}, "transparency": {"alphabet": json_word(&tr.alpha), "L": tr.max_len, "nulls_inserted": format!("1..={}", tr.max_nulls)}, "transparency_pairs": {"alphabet": json_word(&tr2.alpha), "L": tr2.max_len, "extra_positions": "1..=2 x {null in first, second, both}"}}),
         assumptions: vec!["canonical nulls only; Some(NaN) is never generated (DESIGN 5.4)".into(), "a call that panics under both encodings (documented or known panic) counts as equal".into()],
         exhaustive: true,
